@@ -2,6 +2,7 @@ import RnaVerif.Model.Pairs
 import RnaVerif.Lemmas.Pairs
 import RnaVerif.Lemmas.PairsReal
 import RnaVerif.Lemmas.PairsCast
+import RnaVerif.Lemmas.PairsCos50
 import RnaVerif.Spec.PairsChemistry
 /-! # C03 — reported base pairs are geometrically justified, edge-exclusive and maximal
 
@@ -18,8 +19,8 @@ What is proved here:
 * over ℝ: the polynomial conditions the exact model tests are the angle window and the cis/trans test
   the code computes with `acos`/`atan2` (`angle_range_iff`, `cis_iff`);
 * the exact model's three-valued answers on rational coordinates are sound for those real conditions
-  (`model_angle_sound` — with the enclosure of cos²50° as an explicit hypothesis —, `model_distance_sound`,
-  `model_cis_sound`);
+  (`model_angle_sound`, `model_distance_sound`, `model_cis_sound`); the pinned rational enclosure of cos²50°
+  is proved to contain it (`cosSq50_encloses`), so no numeric fact is assumed;
 * bridges from the regenerated tables and thresholds to what the statement pins (`params_bridge`: the
   specification predicate runs with the pinned `Params.spec`, so a changed threshold or table entry in the
   source both breaks the bridge and yields concrete failing inputs).
@@ -34,25 +35,25 @@ open RnaVerif RnaVerif.Pairs
 
 /-- thresholds of the statement: 4.0 Å, 50°–130°, at least two hydrogen bonds, cis = (−90°, 90°) -/
 theorem thresholds :
-    Gen.hbondMaxDistance = 4 ∧ Gen.hbondAngleLo = 50 ∧ Gen.hbondAngleHi = 130 ∧
-    Gen.minHbondCount = 2 ∧ Gen.cisLo = -90 ∧ Gen.cisHi = 90 := by decide
+    Gen.Ann.hbondMaxDistance = 4 ∧ Gen.Ann.hbondAngleLo = 50 ∧ Gen.Ann.hbondAngleHi = 130 ∧
+    Gen.Ann.minHbondCount = 2 ∧ Gen.Ann.cisLo = -90 ∧ Gen.Ann.cisHi = 90 := by decide
 
 /-- the angle window is symmetric about 90° (so the orientation of the donor–acceptor vector, which
 depends on KD-tree order, cannot matter) and both ends use the same squared-cosine enclosure, a proper
 interval of width ≤ 1e-29 -/
 theorem angle_window_symmetric :
-    Gen.hbondAngleLo + Gen.hbondAngleHi = 180 ∧ Gen.cosSqLoEnc = Gen.cosSqHiEnc ∧
-    Gen.cosSqLoEnc.1 < Gen.cosSqLoEnc.2 ∧
-    Gen.cosSqLoEnc.2 - Gen.cosSqLoEnc.1 ≤ 1 / 100000000000000000000000000000 ∧
-    0 < Gen.cosSqLoEnc.1 - cosBand ∧ Gen.cosSqLoEnc.2 + cosBand < 1 := by decide +kernel
+    Gen.Ann.hbondAngleLo + Gen.Ann.hbondAngleHi = 180 ∧ Gen.Ann.cosSqLoEnc = Gen.Ann.cosSqHiEnc ∧
+    Gen.Ann.cosSqLoEnc.1 < Gen.Ann.cosSqLoEnc.2 ∧
+    Gen.Ann.cosSqLoEnc.2 - Gen.Ann.cosSqLoEnc.1 ≤ 1 / 100000000000000000000000000000 ∧
+    0 < Gen.Ann.cosSqLoEnc.1 - cosBand ∧ Gen.Ann.cosSqLoEnc.2 + cosBand < 1 := by decide +kernel
 
 /-- the regenerated chemistry tables are the pinned snapshot -/
 theorem tables_snapshot :
-    Gen.baseDonors = Spec.PairsChemistry.baseDonors ∧
-    Gen.baseAcceptors = Spec.PairsChemistry.baseAcceptors ∧
-    Gen.phosphateAcceptors = Spec.PairsChemistry.phosphateAcceptors ∧
-    Gen.riboseAcceptors = Spec.PairsChemistry.riboseAcceptors ∧
-    Gen.baseEdges = Spec.PairsChemistry.baseEdges := by decide
+    Gen.Ann.baseDonors = Spec.PairsChemistry.baseDonors ∧
+    Gen.Ann.baseAcceptors = Spec.PairsChemistry.baseAcceptors ∧
+    Gen.Ann.phosphateAcceptors = Spec.PairsChemistry.phosphateAcceptors ∧
+    Gen.Ann.riboseAcceptors = Spec.PairsChemistry.riboseAcceptors ∧
+    Gen.Ann.baseEdges = Spec.PairsChemistry.baseEdges := by decide
 
 /-- **params_bridge**: everything the model takes from the regenerated source (tables, thresholds, enclosure,
 atom names, BPh table, merge rules, "each atom inserted once") equals what the statements pin.  The
@@ -61,36 +62,36 @@ theorem params_bridge : Params.gen = Params.spec := by decide +kernel
 
 /-- atoms of the glycosidic torsion and of the base normal -/
 theorem geometry_atoms_snapshot :
-    Gen.purineLetters = Spec.PairsChemistry.purineLetters ∧
-    Gen.normalPurineLetters = Spec.PairsChemistry.purineLetters ∧
-    (Gen.glycoSugar, Gen.glycoPurine, Gen.glycoOther) = Spec.PairsChemistry.glyco ∧
-    Gen.normalPurine = Spec.PairsChemistry.normalPurine ∧
-    Gen.normalOther = Spec.PairsChemistry.normalOther := by decide
+    Gen.Ann.purineLetters = Spec.PairsChemistry.purineLetters ∧
+    Gen.Ann.normalPurineLetters = Spec.PairsChemistry.purineLetters ∧
+    (Gen.Ann.glycoSugar, Gen.Ann.glycoPurine, Gen.Ann.glycoOther) = Spec.PairsChemistry.glyco ∧
+    Gen.Ann.normalPurine = Spec.PairsChemistry.normalPurine ∧
+    Gen.Ann.normalOther = Spec.PairsChemistry.normalOther := by decide
 
 /-- every donor and every acceptor of a base has an edge entry (so no base contact is silently dropped
 by the edge lookup) -/
 theorem donors_acceptors_have_edges :
-    ∀ e ∈ Gen.baseDonors ++ Gen.baseAcceptors, ∀ n ∈ e.2, (edgesOf Params.gen e.1 n).isSome = true := by decide
+    ∀ e ∈ Gen.Ann.baseDonors ++ Gen.Ann.baseAcceptors, ∀ n ∈ e.2, (edgesOf Params.gen e.1 n).isSome = true := by decide
 
 /-- every edge entry names only the three Leontis–Westhof edges -/
 theorem edges_are_WHS :
-    ∀ e ∈ Gen.baseEdges, ∀ a ∈ e.2, a.2.toList ≠ [] ∧ ∀ c ∈ a.2.toList, c = 'W' ∨ c = 'H' ∨ c = 'S' := by
+    ∀ e ∈ Gen.Ann.baseEdges, ∀ a ∈ e.2, a.2.toList ≠ [] ∧ ∀ c ∈ a.2.toList, c = 'W' ∨ c = 'H' ∨ c = 'S' := by
   decide
 
 /-- the typing rule of `find_pairs`: an atom named in both lists is an acceptor; the atoms typed donor
 are exactly the base donors that are not ribose/phosphate oxygens -/
 theorem kinds :
-    ∀ e ∈ Gen.baseDonors, ∀ n ∈ e.2,
+    ∀ e ∈ Gen.Ann.baseDonors, ∀ n ∈ e.2,
       (kindOf Params.gen e.1 n = .donor ↔ sugarPhosphateName Params.gen n = false) := by decide
 
 /-- the code inserts every atom of a residue into the KD-tree once (after the O2' fix: the names are
 iterated through `dict.fromkeys(acceptors + donors)`).  With `acceptors + donors` iterated as written,
 `O2'` — listed in `RIBOSE_ACCEPTORS` and in `BASE_DONORS` — was inserted twice and a single O2'…X contact
 counted as two hydrogen bonds; this theorem fails to check on such a source tree. -/
-theorem points_nodup : ∀ e ∈ Gen.baseDonors, (codePointNames Params.gen e.1).Nodup := by decide
+theorem points_nodup : ∀ e ∈ Gen.Ann.baseDonors, (codePointNames Params.gen e.1).Nodup := by decide
 
 /-- the spec-level point set lists every atom once, whatever the source does -/
-theorem pointNames_nodup : ∀ e ∈ Gen.baseDonors, (pointNames Params.gen e.1).Nodup := by decide
+theorem pointNames_nodup : ∀ e ∈ Gen.Ann.baseDonors, (pointNames Params.gen e.1).Nodup := by decide
 
 /-! ## the occupation stage, for every processing order -/
 
@@ -224,23 +225,33 @@ example : (0 : ℝ) < 1 ∧
 
 /-! ## the exact model's three-valued answers are sound for the real-number conditions -/
 
+open Real in
+/-- the pinned rational interval really encloses cos² 50° (triple-angle identity `cos 150° = −√3/2`,
+monotonicity of `4x³ − 3x` on `[1/2, ∞)`, 40-digit bounds of `√3`) -/
+theorem cosSq50_encloses :
+    ((Spec.PairsChemistry.cosSq50.1 : Rat) : ℝ) ≤ cos (50 * π / 180) ^ 2 ∧
+    cos (50 * π / 180) ^ 2 ≤ ((Spec.PairsChemistry.cosSq50.2 : Rat) : ℝ) :=
+  PairsCos50.cosSq50_encloses
+
 open Real V3 PairsCast in
 /-- **model_angle_sound**: for rational coordinates, if the exact model answers `yes` the real angle between
 the normal and the donor–acceptor vector lies strictly between 50° and 130°; if it answers `no` it does
-not.  Explicit hypothesis: the pinned rational interval `Spec.PairsChemistry.cosSq50` encloses cos²50°
-(computed by the translator with interval arithmetic; not proved in Lean). -/
-theorem model_angle_sound (n v : V3 Rat) (hn : 0 < norm2 (castV n)) (hv : 0 < norm2 (castV v))
-    (henc : ((Spec.PairsChemistry.cosSq50.1 : Rat) : ℝ) ≤ cos (50 * π / 180) ^ 2 ∧
-      cos (50 * π / 180) ^ 2 ≤ ((Spec.PairsChemistry.cosSq50.2 : Rat) : ℝ)) :
+not.  (No numeric hypothesis: the enclosure of cos²50° is `cosSq50_encloses`.) -/
+theorem model_angle_sound (n v : V3 Rat) (hn : 0 < norm2 (castV n)) (hv : 0 < norm2 (castV v)) :
     (angleTri Params.spec n v = .yes →
       50 * π / 180 < arccos (dot (castV n) (castV v) / √(norm2 (castV n)) / √(norm2 (castV v))) ∧
       arccos (dot (castV n) (castV v) / √(norm2 (castV n)) / √(norm2 (castV v))) < 130 * π / 180) ∧
     (angleTri Params.spec n v = .no →
       ¬ (50 * π / 180 < arccos (dot (castV n) (castV v) / √(norm2 (castV n)) / √(norm2 (castV v))) ∧
       arccos (dot (castV n) (castV v) / √(norm2 (castV n)) / √(norm2 (castV v))) < 130 * π / 180)) := by
+  have henc := cosSq50_encloses
   have h := angleTri_sound Params.spec n v (cos (50 * π / 180) ^ 2) ⟨henc.1, henc.1⟩ ⟨henc.2, henc.2⟩
   rw [angle_range_iff (castV n) (castV v) hn hv]
   exact h
+
+/-- non-vacuity of the hypotheses: a rational normal and contact vector of positive length -/
+example : (0 : ℝ) < V3.norm2 (PairsCast.castV ⟨0, 0, 1⟩) ∧ (0 : ℝ) < V3.norm2 (PairsCast.castV ⟨3, 1, 0⟩) := by
+  constructor <;> norm_num [V3.norm2, V3.dot, PairsCast.castV]
 
 /-- non-vacuity: normal along z, contact vector in the plane (90°: `yes`), along the normal (0°: `no`) -/
 example : angleTri Params.spec ⟨0, 0, 1⟩ ⟨3, 1, 0⟩ = .yes ∧ angleTri Params.spec ⟨0, 0, 2⟩ ⟨0, 0, 3⟩ = .no ∧
